@@ -145,6 +145,21 @@ let run (cmd : string) (a : v list) : string =
       popt pz (Objectives.lower_bound (objective (int_ o) (int_ ok)) (zlist s) (z_ r) (bool_ sorted))
   | "wvalue", [ws; s; sorted] ->
       pres (fun (n, d) -> "[" ^ pz n ^ "," ^ pz d ^ "]") (Objectives.value_weighted (zlist ws) (zlist s) (bool_ sorted))
+  (* ---- verified oracles and checkers ---- *)
+  | "reach", [k; vs] -> plist (plist pz) (Reach.reach (nat_ k) (zlist vs))
+  | "reach_count", [k; vs] -> string_of_int (Stdlib.List.length (Reach.reach (nat_ k) (zlist vs)))
+  | "opt_value", [o; ok; k; vs] -> popt pz (Reach.opt_value (objective (int_ o) (int_ ok)) (nat_ k) (zlist vs))
+  | "min_bins", [c; vs] -> pnat (Reach.min_bins (z_ c) (zlist vs))
+  | "max_cover", [c; vs] -> pnat (Reach.max_cover (z_ c) (zlist vs))
+  | "opt_balanced2", [d; vs] -> popt pz (Reach.opt_balanced2 (z_ d) (zlist vs))
+  | "reach_unsorted", [k; vs] -> plist (plist pz) (Reach.reach_unsorted (nat_ k) (zlist vs))
+  | "chk_partition", [k; ns; vs; b] -> pbool (Checkers.is_partition_b (nat_ k) (items ns vs) (bins_in b))
+  | "chk_packing", [c; ns; vs; b] -> pbool (Checkers.is_packing_b (z_ c) (items ns vs) (bins_in b))
+  | "chk_nonempty", [b] -> pbool (Checkers.nonempty_b (bins_in b))
+  | "chk_cover", [c; ns; vs; b] -> popt pz (Checkers.is_cover_b (z_ c) (items ns vs) (bins_in b))
+  | "chk_anyfit", [c; b] -> pbool (Checkers.anyfit_b (z_ c) (bins_in b))
+  | "chk_ascending", [s] -> pbool (Checkers.ascending_b (zlist s))
+  | "chk_wf", [b] -> pbool (Checkers.wf_b (bins_in b))
   | _ -> raise (Parse ("unknown command " ^ cmd))
 
 let () =
